@@ -151,7 +151,11 @@ func checkJSON(api *serix.API, rec *recorder, n *serixgen.Node) {
 		}
 		var js []byte
 		var err error
-		pn, msg, frame := guard(func() { js, err = api.JSONEncode(ctx, p.Interface()) })
+		var jopts []serix.Option
+		if rec.evals%2 == 0 {
+			jopts = append(jopts, serix.WithValidation())
+		}
+		pn, msg, frame := guard(func() { js, err = api.JSONEncode(ctx, p.Interface(), jopts...) })
 		if pn {
 			rec.fail("panic|"+frame+"|"+classOf(msg), n.Name, fmt.Sprintf("JSONEncode panicked for %s: %s", n.Canon(v), msg), rp)
 			continue
@@ -162,7 +166,7 @@ func checkJSON(api *serix.API, rec *recorder, n *serixgen.Node) {
 		}
 		rec.distinct++
 		q := reflect.New(n.Type)
-		pn, msg, frame = guard(func() { err = api.JSONDecode(ctx, js, q.Interface()) })
+		pn, msg, frame = guard(func() { err = api.JSONDecode(ctx, js, q.Interface(), jopts...) })
 		if pn {
 			rec.fail("panic|"+frame+"|"+classOf(msg), n.Name, fmt.Sprintf("JSONDecode panicked on the output %s of JSONEncode: %s", js, msg), rp)
 			continue
@@ -199,7 +203,7 @@ func run(c *cli.Ctx, what string) *cli.PartResult {
 	if c.Thorough() {
 		serixgen.MaxValues = 1000
 	}
-	shapes := serixgen.Shapes(c.Thorough())
+	shapes := serixgen.Shapes(true)
 	nshapes := 0
 	exhaustive := true
 	check := func(n *serixgen.Node) {
@@ -245,13 +249,37 @@ func run(c *cli.Ctx, what string) *cli.PartResult {
 		nshapes++
 		check(n)
 	}
+	ntriples := 0
+	if c.Thorough() && exhaustive {
+		// all ordered triples of field kinds, built lazily (one reflect type per shape, never freed)
+		serixgen.MaxValues = 120
+		for i, total := 0, serixgen.TripleCount(); i < total; i++ {
+			if i%c.NShards != c.Shard {
+				continue
+			}
+			if c.Expired() {
+				exhaustive = false
+				break
+			}
+			n := serixgen.Triple(kinds, i)
+			if n == nil {
+				continue
+			}
+			if containsBad(n) {
+				rec.skipped++
+				continue
+			}
+			ntriples++
+			check(n)
+		}
+	}
 	var badList []string
 	for b := range bad {
 		badList = append(badList, b)
 	}
 	sort.Strings(badList)
 	pr := &cli.PartResult{Engine: "I", Evaluations: rec.evals, Distinct: rec.distinct, Exhaustive: exhaustive,
-		Notes: []string{fmt.Sprintf("%d single-field + %d larger shapes of %d in this shard, %d larger shapes skipped because they contain a field kind that already fails alone %v, %d values rejected by Encode (allowed), value cap per shape %d", len(kinds), nshapes, len(shapes), rec.skipped, badList, rec.rejected, serixgen.MaxValues)}}
+		Notes: []string{fmt.Sprintf("%d single-field + %d larger shapes of %d (all ordered pairs, one- and (thorough) three-level nestings) + %d three-field shapes (thorough: all ordered triples, value cap 120) in this shard, %d larger shapes skipped because they contain a field kind that already fails alone %v, %d values rejected by Encode (allowed), value cap per shape %d", len(kinds), nshapes, len(shapes), ntriples, rec.skipped, badList, rec.rejected, serixgen.MaxValues)}}
 	pr.Samples = rec.samples
 	if len(pr.Samples) == 0 {
 		pr.Samples = []any{fmt.Sprintf("%d shapes", nshapes)}
@@ -272,11 +300,12 @@ func main() {
 		{Name: "binary", Run: func(c *cli.Ctx) *cli.PartResult { return run(c, "binary") }, Shards: 16, ShardsQuick: 8},
 		{Name: "json", Run: func(c *cli.Ctx) *cli.PartResult { return run(c, "json") }, Shards: 8, ShardsQuick: 4},
 		streamPart(),
+		orderedMapPart(),
 	}
 	cli.Main(&cli.Property{
 		ID: "C01", Level: "exploration", Parts: parts, QuickSecs: 60, ThoroughSecs: 900,
-		Rule:        "complete enumeration of a type-shape grammar built at run time with reflect (every field kind alone, pairs, and every kind nested as struct field / optional pointer / slice element / map value) x the complete cross product of per-leaf boundary-value alphabets (capped per shape; the cap is reported) x validation on/off; binary round trip (value, consumed bytes, determinism), JSON round trip, and every stream Write*/Read* helper pair read back through every composition of the encoded length into read chunks; distinct_nontrivial = accepted (shape, value) pairs whose encoding is longer than one byte",
+		Rule:        "complete enumeration of a type-shape grammar built at run time with reflect (every field kind alone, all ordered pairs, thorough: all ordered triples, and every kind nested (thorough: three levels deep) as struct field / optional pointer / slice element / map value) x the complete cross product of per-leaf boundary-value alphabets (capped per shape; the cap is reported) x validation on/off; binary round trip (value, consumed bytes, determinism), JSON round trip, and every stream Write*/Read* helper pair read back through every composition of the encoded length into read chunks; distinct_nontrivial = accepted (shape, value) pairs whose encoding is longer than one byte",
 		Assumptions: []string{"nil and empty slices/maps are identified (the wire cannot tell them apart); timestamps are compared by UnixNano", "independence of Go's map iteration order is only sampled (4 repeated encodes per value)"},
-		NotReached:  []string{"shapes deeper than two struct levels", "string/[]byte lengths above 256"},
+		NotReached:  []string{"shapes deeper than four struct levels or wider than three fields", "string/[]byte lengths above 256"},
 	})
 }
